@@ -111,12 +111,12 @@ def complete_from_constructor(prog, ci, attrs, data):
         pass
 
 
-def pol_data(name="z", comps=("A", "B"), axis=2, backend="numpy", shape=None):
+def pol_data(name="z", comps=("A", "B"), axis=2, backend="numpy", shape=None, dtype="complex128"):
     shp = shape if shape is not None else (N, NCHAN, sp.Integer(len(comps)))
     ishape = [x for i, x in enumerate(shp) if i != axis]
     items = [Num(sym_complex(c), kind="array", backend=backend, tag="data", shape=ishape,
-                 dtype=ExtV("numpy.complex128")) for c in comps]
+                 dtype=ExtV("numpy." + dtype)) for c in comps]
     s = StackV(items, axis, backend)
     s.shape = shape if shape is not None else (N, NCHAN, sp.Integer(len(comps)))
-    s.dtype = ExtV("numpy.complex128")
+    s.dtype = ExtV("numpy." + dtype)
     return s
